@@ -27,6 +27,12 @@ prop(
          "without revert}, placed last in half of the cases, so that files byte-identical to their base version after a non-trivial path "
          "history (samebytes-moved / samebytes-touched) and files at the same path with other bytes but identical rules "
          "(samerules-newbytes) are frequent and counted in the class histogram; "
+         "about half of the cases run under a parser { include / exclude } configuration drawn from six filters over the path vocabulary "
+         "(in-process through the PathFilter, in the binary through the config file); renames then prefer (1 in 2) a target on the other "
+         "side of the filter boundary, files outside are edited like any other; the reference is computed on the history projected through "
+         "the filter (files outside do not exist, rename to outside = deletion, rename from outside = creation whose rules must all be "
+         "changed rules); the path pool holds a file 'alerts' and a file 'alerts/g.yaml' that exclude each other, and a file-dir commit pair "
+         "deletes one and creates the other in the next commit (file replaced by a directory of its name and the reverse); "
          "and optionally 1-2 further commits on main after the fork. Built with git fast-import + checkout in a scratch repository; "
          "pint's GlobFinder + GitBranchFinder (as wired in cmd/pint/ci.go) classify every HEAD rule; the reference compares each HEAD "
          "file with the fork-point version of its origin (followed through the branch's renames) by rule content with multiplicities; "
@@ -40,8 +46,9 @@ prop(
                "the same commit) and the harness' YAML renderer (every rule's first line is cross-checked against pint's parse; a "
                "mismatch is reported as inconclusive, not as a violation). Where the statement does not determine one answer the "
                "reference accepts a set: several rules of one kind+name on a side (added/modified), a changed rule in a renamed file "
-               "(renamed/modified), rename combined with an edit (git's similarity heuristic: renamed or new file), a path "
-               "re-created after being renamed away (new file, or compared with the fork-point version of that path). A rename "
+               "(renamed/modified), rename combined with an edit (git's similarity heuristic: renamed or new file), a file "
+               "renamed into the parser filter on the branch (added / renamed / modified, never unmodified; inside-outside-inside: "
+               "nothing demanded). A path re-created after its file was renamed away is a new file (strict). A rename "
                "onto a path deleted earlier on the branch is followed strictly (origin = rename source). The changed / not-changed split is "
                "always enforced with multiplicities. Group-level attributes (labels, interval) are never edited: the statement lists "
                "rule content only.",
